@@ -3,7 +3,8 @@
 import subprocess, sys, os, re, glob
 rnd = sys.argv[1]
 after = set(sys.argv[2].split(',')) if len(sys.argv) > 2 else set()
-for p in ["C%02d" % i for i in range(1, 21)]:
+props = os.environ.get("PROPS", "").split() or ["C%02d" % i for i in range(1, 21)]
+for p in props:
     for k in (1, 2, 3):
         d = f"/tmp/wt-{p}-{rnd}/_out/{k}"
         if not os.path.isdir(d):
